@@ -28,16 +28,21 @@ reg("C09", "loaders fail cleanly on malformed or truncated files",
                 env={"ASAN_OPTIONS": "abort_on_error=1:detect_leaks=0:detect_stack_use_after_return=0:strict_string_checks=1:"
                                      "allocator_may_return_null=1:handle_abort=1:max_allocation_size_mb=4096:"
                                      "malloc_context_size=3:quarantine_size_mb=16:symbolize=0"})],
-    rule="seed files = one canonical generated instance (generator seed fixed, independent of VERIF_SEED; thorough: + 5 instances drawn from VERIF_SEED) of each of the 30 classes of the C08 registry written by "
+    rule="The enumeration is exhaustive over prefixes and token mutations of FIXED seed files; VERIF_SEED does not change it "
+         "(it is only recorded): seed files and the blind component are generated from constants, so every run of a tier "
+         "offers the same mutants and its violation keys can be matched against the list of known findings. "
+         "Seed files = one generated instance (thorough: 6) of each of the 30 classes of the C08 registry written by "
          "dumpToNF, + Zycor / IfpEn / Bmp grids written by the library, + a hand-written F2G grid, + CSV files in 3 CSVformat "
          "variants, each <= 4 KiB (8 KiB thorough). Mutants of a seed file, enumerated in a fixed order and dealt to 8 (16) "
          "cases: EVERY prefix; every token x {delete, duplicate, -1, 0, 1, 2147483647, 1e308, 99999999999, NA, text, empty "
          "line, comment marker}; integer tokens +1, -1, negated, x2, x1000; on every line one extra / one missing value, line "
          "removed / duplicated; 11 wrong first lines (class tags), CRLF, BOM, NUL bytes, no final newline, file doubled, "
-         "200000-character tokens, 20000-value lines; 150 (600) seeded blind byte flips / deletions / re-insertions / splices "
-         "with another seed file. Every mutant is loaded in a forked child (ASan+UBSan, 1 GiB cap on a single allocation, "
-         "5 s CPU-time limit, wall-clock watchdog with one re-run before a hang is declared); a returned object goes through basic queries, the "
-         "C07 Db consistency rules, save and reload. distinct = (seed kind, instance, batch)",
+         "200000-character tokens, 20000-value lines; 150 (600) blind byte flips / deletions / re-insertions / splices "
+         "with another seed file (fixed internal seed per file). Every mutant is loaded in a forked child (ASan+UBSan, 1 GiB "
+         "cap on a single allocation); hang = 20 s of CPU TIME exhausted (first run limited to 5 s); the wall-clock watchdog "
+         "only produces counted skips. A returned object goes through basic queries, the structural C07 Db consistency "
+         "rules, save and reload. Keys name the defect: <folded sanitizer kind>:<first /repo function>@<innermost reader>, "
+         "<reader>:exception:escaped, <reader>:hang, <reader>:returned-object:<rule>. distinct = (seed kind, instance, batch)",
     level="fault_enumeration",
     require=dict(distinct=100, oracles=dict(quick={"loader-survives": 40000}, thorough={"loader-survives": 250000})),
     evidence_extra=_c09_extra,
